@@ -24,7 +24,7 @@ RULE = ("a case is a schema (secrets aes/xor/best, challenge, bytes, containers,
         "save judged with a pre-existing destination; distinct = distinct (schema, states, format, fault)")
 REQUIRED = ("failing_saves_judged", "natural_failures_judged", "injected_failures_judged", "successful_saves_judged",
             "loaded_back_equal", "distinct_injection_lines", "fault:unencodable", "fault:keyfile", "fault:format",
-            "fault:option", "fault:domain", "crash_points_judged")
+            "fault:option", "fault:domain", "fault:keyfile-same-secret", "fault:rekey", "crash_points_judged")
 ASSUMPTIONS = ["atomicity of the write itself (a crash between open and the end of write) is not part of the property",
                "an injected exception that the library swallows (bare except) lets the save complete: the success "
                "clause is judged instead"]
@@ -44,7 +44,8 @@ def generate(rng, ctx):
     t1 = roundtrip.state_tree(rng, schema, fmt, env)
     t2 = roundtrip.state_tree(rng, schema, fmt, env)
     t1.setdefault("sec0", "tk%016x" % rng.getrandbits(64))
-    fault = weighted(rng, [(3, "none"), (2, "unencodable"), (2, "keyfile"), (1, "format"), (1, "option"), (2, "domain")])
+    fault = weighted(rng, [(3, "none"), (2, "unencodable"), (2, "keyfile"), (1.5, "keyfile-same-secret"), (1.5, "rekey"), (1, "format"),
+                           (1, "option"), (2, "domain")])
     return {"schema": schema, "fmt": fmt, "t1": t1, "t2": t2, "fault": fault, "r": rng.getrandbits(30),
             "crash": rng.random() < (0.5 if ctx.tier == "thorough" else 0.3)}
 
@@ -94,7 +95,10 @@ def run(case, ctx, res):
         return
     # ---- second state + natural fault
     try:
-        cfg.load_tree(_copy(case["t2"]))
+        t2 = _copy(case["t2"])
+        if case["fault"] in ("keyfile-same-secret", "rekey"):
+            t2.pop("sec0", None)
+        cfg.load_tree(t2)
     except Exception:
         res.count("state_not_loadable")
     fault, kwargs, usefmt = case["fault"], {}, fmt
@@ -104,6 +108,17 @@ def run(case, ctx, res):
         cfg.sec0 = "tk%016x" % case["r"]
         with open(keypath, "wb") as fp:
             fp.write(b"short-key-16byte"[: [0, 1, 16, 31, 33][case["r"] % 5]])
+    elif fault == "keyfile-same-secret":
+        # the secret is NOT changed after the first save: the key file alone becomes unusable
+        cfg.sec0 = case["t1"].get("sec0") or "tk%016x" % case["r"]
+        with open(keypath, "wb") as fp:
+            fp.write(b"short-key-16byte"[: [0, 1, 16, 31, 33][case["r"] % 5]])
+    elif fault == "rekey":
+        # the key file is replaced by another valid key between two saves of an unchanged secret: no failure expected,
+        # but what is written must load back with the key file as it is now
+        cfg.sec0 = case["t1"].get("sec0") or "tk%016x" % case["r"]
+        with open(keypath, "wb") as fp:
+            fp.write(bytes((case["r"] * 7 + i * 11) % 256 for i in range(32)))
     elif fault == "format":
         usefmt = ["toml", "JSON", "", "ini"][case["r"] % 4]
     elif fault == "option":
@@ -130,14 +145,16 @@ def run(case, ctx, res):
         res.count("natural_failures_judged")
         res.nontrivial(case["schema"], case["t1"], case["t2"], fmt, fault, case["r"])
         # put the configuration back into a saveable state for the failpoint sweep
-        if fault == "keyfile":
+        if fault in ("keyfile", "keyfile-same-secret"):
             os.unlink(keypath)
         if fault in ("unencodable", "domain"):
             cfg.extra0 = None
         if fault in ("format", "option"):
             pass
-    elif fault != "none":
+    elif fault not in ("none", "rekey"):
         res.count("fault_did_not_fail:" + fault)
+        if fault == "keyfile-same-secret":
+            os.unlink(keypath)
     # ---- failpoint sweep on a save that succeeds when left alone
     _sweep(cc, ctx, res, case, cfg, built, root, dest, fmt, log, keypath)
 
